@@ -574,7 +574,32 @@ func main() {
 		// prefix ending in 0xff with a live key equal to the incremented prefix
 		h3 := []Op{{K: "DbPut", Key: []byte{'a', 0xff, 1}, Val: []byte{1}}, {K: "DbPut", Key: []byte{'b'}, Val: []byte{2}}, {K: "DbPut", Key: []byte{'b', 0}, Val: []byte{3}},
 			{K: "DbIter", Prefix: []byte{'a', 0xff}, Start: []byte{}}, {K: "DbIter", Prefix: []byte{0xff}, Start: []byte{}}, {K: "DbPut", Key: []byte{0xff, 0xff}, Val: []byte{4}}, {K: "DbIter", Prefix: []byte{0xff, 0xff}, Start: []byte{}}}
-		return [][]Op{h1, h2, h3}
+		// pending view: every order of put / delete / overwrite of one key inside a tracked batch, on both batches,
+		// with and without an older committed value, before and after Write / Reset / SetPending(false)
+		var h4 []Op
+		ka, kb, kc := []byte{1, 0}, []byte{1, 1}, []byte{2}
+		h4 = append(h4, Op{K: "DbPut", Key: ka, Val: []byte("old-a")}, Op{K: "DbPut", Key: kc, Val: []byte("old-c")})
+		for b := 0; b < 2; b++ {
+			h4 = append(h4, Op{K: "BSetPending", B: b, Flag: true},
+				Op{K: "BPut", B: b, Key: ka, Val: []byte("p1")}, Op{K: "BGetPending", B: b, Key: ka},
+				Op{K: "BDel", B: b, Key: ka}, Op{K: "BGetPending", B: b, Key: ka}, // put then delete: tombstone
+				Op{K: "BDel", B: b, Key: kb}, Op{K: "BPut", B: b, Key: kb, Val: []byte("p2")}, Op{K: "BGetPending", B: b, Key: kb}, // delete then put
+				Op{K: "BPut", B: b, Key: kc, Val: []byte("p3")}, Op{K: "BPut", B: b, Key: kc, Val: []byte("p4")}, Op{K: "BGetPending", B: b, Key: kc}, // overwrite
+				Op{K: "BDel", B: b, Key: kc}, Op{K: "BDel", B: b, Key: kc}, Op{K: "BGetPending", B: b, Key: kc},
+				Op{K: "BGetPending", B: 1 - b, Key: ka}, Op{K: "DbGet", Key: ka}, // the other batch and the store see nothing
+				Op{K: "BWrite", B: b}, Op{K: "BGetPending", B: b, Key: ka}, Op{K: "DbGet", Key: ka}, Op{K: "DbGet", Key: kb}, Op{K: "DbHas", Key: kc},
+				Op{K: "BReset", B: b}, Op{K: "BPut", B: b, Key: ka, Val: []byte("untracked")}, Op{K: "BGetPending", B: b, Key: ka},
+				Op{K: "BSetPending", B: b, Flag: true}, Op{K: "BGetPending", B: b, Key: ka}, Op{K: "BDel", B: b, Key: ka}, Op{K: "BGetPending", B: b, Key: ka},
+				Op{K: "BSetPending", B: b, Flag: false}, Op{K: "BGetPending", B: b, Key: ka}, Op{K: "BReset", B: b},
+				Op{K: "DbPut", Key: ka, Val: []byte("old-a")}, Op{K: "DbPut", Key: kc, Val: []byte("old-c")})
+		}
+		// replay of a tracked batch into the other tracked batch, then reset+refill of the source (aliasing)
+		h5 := []Op{{K: "BSetPending", B: 0, Flag: true}, {K: "BSetPending", B: 1, Flag: true},
+			{K: "BPut", B: 0, Key: ka, Val: []byte("from-0")}, {K: "BDel", B: 0, Key: kb}, {K: "BReplayB", B: 0},
+			{K: "BGetPending", B: 1, Key: ka}, {K: "BGetPending", B: 1, Key: kb},
+			{K: "BReset", B: 0}, {K: "BPut", B: 0, Key: kc, Val: []byte("XXXXXX")}, {K: "BPut", B: 0, Key: ka, Val: []byte("YYYYYY")},
+			{K: "BGetPending", B: 1, Key: ka}, {K: "BGetPending", B: 1, Key: kb}, {K: "BWrite", B: 1}, {K: "DbGet", Key: ka}, {K: "DbHas", Key: kb}}
+		return [][]Op{h1, h2, h3, h4, h5}
 	}
 	if f.Replay == "" {
 		histories = append(histories, corpus()...)
